@@ -53,6 +53,8 @@ func c07Alphabet(e *rEnv, reduced bool) []rPkt {
 			{Kind: "author", User: "own", Args: []string{"service=shell", "cmd=reload"}},
 			{Kind: "author", User: "nobody", Args: []string{"service=shell", "cmd=show"}},
 			{Kind: "author", User: "own", Args: []string{"service=ppp", "protocol=ip"}},
+			{Kind: "author", User: "OWN", Args: []string{"service=shell", "cmd=show"}}, // resembles a user but is not one
+			{Kind: "acct", User: "Own", Flags: 2}, {Kind: "pap", User: "OWN", Pw: e.Sec.Own},
 			{Kind: "acct", User: "own", Flags: 2}, {Kind: "acct", User: "own", Flags: 4}, {Kind: "acct", User: "own", Flags: 8}, {Kind: "acct", User: "noauth", Flags: 2},
 			{Kind: "rawbody", Action: 1, Raw: "0901010100000000"},     // authentication: lengths consistent, action 9 invalid
 			{Kind: "rawbody", Action: 2, Raw: "7701010100000000"},     // authorization: method 0x77 invalid
